@@ -468,7 +468,7 @@ class Oracle:
             if m[3]:
                 new["ub"] = m[3]
             if m[4]:
-                new["exp"] = m[4]
+                new["exp"] = "" if m[4] == "a0" else m[4]      # the epoch itself is "never expires"
 
         def commit():
             self.st[k] = new
@@ -521,8 +521,14 @@ def _check_case(ops, impl, skip_lines, stats):
             # so that the next GetAll and the reload comparison start from what the implementation shows
             opno += 1
             if f[0] == "patch":
+                if f[1] == "0" and o.exists() is False:
+                    # nothing to patch and nothing may be created: the swamp still does not exist
+                    if got != "patch KEY_NOT_FOUND" and i not in skip_lines:
+                        bad.append((i, ops[i], "patch KEY_NOT_FOUND", got))
+                    continue
                 o.forget([f[2]])
-                o.forget_existence()
+                if f[1] != "0" or o.exists() is not True:
+                    o.forget_existence()
             elif f[0] in ("shiftexp", "patchexp"):
                 o.forget(None)
                 o.forget_existence()
